@@ -3,8 +3,8 @@
 # incremental) and a ./vrun wrapper that runs a command with the worktree bind-mounted over /repo in a private mount namespace
 set -e
 D=/tmp/seed-$1
-git -C /repo worktree add -f --detach $D HEAD >/dev/null 2>&1
-rsync -a --exclude='.git' /repo/ $D/
+[ -d $D/.git -o -f $D/.git ] || git -C /repo worktree add -f --detach $D HEAD >/dev/null 2>&1
+rsync -a --exclude='.git' /repo/ $D/ 2>/dev/null || [ $? = 24 ]   # 24: files vanished (a test run in /repo)
 cat > $D/vrun <<EOS
 #!/bin/sh
 # runs "\$@" with this worktree mounted at /repo (the path the generated Makefiles expect); cwd = /repo
